@@ -37,7 +37,7 @@ LEVEL_NOTE = ("trusted: the hash seeds are fixed values (0, 1, 2, 3, 1234567, 98
 RULE = ("one run = project (1-2 files, 1-4 == / in sites, empty or with previous content) with hash-sensitive values, executed under 6 hash seeds (directory order "
         "permuted per seed) with black, and under black / absent / format-command / raising formatter with hash seed 0; distinct = (value type-path, formatter "
         "state); non-trivial = a value with a set or frozenset of >= 2 elements whose iteration order depends on the hash seed (str / bytes / None / nested)")
-RULE += " Dimensions added while testing against seeded changes: instances of set / frozenset subclasses without a __repr__ of their own; sets of tuples whose first member is a frozenset (partially ordered although not sets); equal-but-distinguishable twins; files needing both tool imports."
+RULE += " Dimensions added while testing against seeded changes: instances of set / frozenset subclasses without a __repr__ of their own; sets of tuples whose first member is a frozenset (partially ordered although not sets); equal-but-distinguishable twins; files needing both tool imports; CRLF projects with multi-line strings and a CRLF-writing format-command among the formatter states."
 ASSUMPTIONS = ["dict insertion order of a created dict is kept (documented Python semantics), not an instability"]
 REAL_VS_STUB = {
     "real": ["inline_snapshot library from /repo/src in interpreters started with PYTHONHASHSEED=h", "Example.run_inline", "pytest + plugin (sample)", "black"],
